@@ -9,6 +9,7 @@ from __future__ import unicode_literals
 
 import datetime
 import functools
+import math
 import re
 
 import six
@@ -192,6 +193,12 @@ def dump_quantity(quantity, version=LATEST_VER):
 
 
 def dump_decimal(decimal, version=LATEST_VER):
+    if isinstance(decimal, float):
+        # Non-finite values have their own literals in ZINC.
+        if math.isnan(decimal):
+            return 'NaN'
+        elif math.isinf(decimal):
+            return 'INF' if decimal > 0 else '-INF'
     return str(decimal)
 
 
